@@ -147,3 +147,6 @@ CFG = {
             'relkt/relkc/relkv lines: the model runner answers `holds` or `skipped out-of-domain <bound>` from the helix '
             'parameters in the case line\'s trailer; `skipped` = the library-made helix is outside the quantifier of C16',
 }
+
+# a run with fewer cases than half of what the quick tier generates today would be a (partly) vacuous differential
+CFG["min_cases"] = 11345
